@@ -48,11 +48,25 @@ type StreamCase struct {
 	Stream gen.Stream `json:"stream"`
 	InCap  int        `json:"in_cap"`
 	OutCap int        `json:"out_cap"`
+	// QuietMs > 0: the source sends nothing for that long before byte QuietAt, with the input still open (a
+	// line that goes quiet in the middle of a frame).  Whatever is delivered typed must still be a whole frame.
+	QuietAt int `json:"quiet_at"`
+	QuietMs int `json:"quiet_ms"`
 }
 
 func checkStream(c StreamCase, o *stats.Obs) error {
 	input := c.Stream.Bytes()
-	res := drive.Run(drive.NewHandler(slog.LevelInfo), input, drive.Options{InCap: c.InCap, OutCap: c.OutCap})
+	opt := drive.Options{InCap: c.InCap, OutCap: c.OutCap}
+	if c.QuietMs > 0 {
+		opt.Timeout = time.Duration(c.QuietMs)*time.Millisecond + 20*time.Second
+		opt.ProducerPause = func(i int) {
+			if i == c.QuietAt {
+				time.Sleep(time.Duration(c.QuietMs) * time.Millisecond)
+			}
+		}
+		o.Class("source-quiet-inside-a-frame")
+	}
+	res := drive.Run(drive.NewHandler(slog.LevelInfo), input, opt)
 	if res.Panic != "" {
 		o.Skip = true // C07's business
 		return nil
@@ -133,6 +147,36 @@ func genStream(t *rapid.T) StreamCase {
 var propStream = stats.Prop(R, "stream", genStream, checkStream)
 
 func TestStream(t *testing.T) { rapid.Check(t, propStream) }
+
+// Quiet line: the source stops for seconds inside a frame (after its leader, in its payload, in its CRC).
+func genQuiet(t *rapid.T) StreamCase {
+	c := StreamCase{InCap: rapid.SampledFrom([]int{0, 16}).Draw(t, "inCap"), OutCap: 1}
+	off := 0
+	var inside []int
+	for i := 0; i < 3; i++ {
+		f := gen.ValidFrame(t, 40)
+		c.Stream.Segs = append(c.Stream.Segs, gen.Segment{Kind: "valid", Data: f})
+		if len(f) > 8 {
+			inside = append(inside, off+5, off+len(f)/2, off+len(f)-2)
+		}
+		off += len(f)
+		c.Stream.Segs = append(c.Stream.Segs, gen.Segment{Kind: "junk", Data: gen.Junk(t, false, 10)})
+		off += len(c.Stream.Segs[len(c.Stream.Segs)-1].Data)
+	}
+	if len(inside) == 0 {
+		inside = []int{1}
+	}
+	c.QuietAt = rapid.SampledFrom(inside).Draw(t, "quietAt")
+	c.QuietMs = 5500
+	if os.Getenv("VERIF_TIER") == "thorough" {
+		c.QuietMs = 12000
+	}
+	return c
+}
+
+var propQuiet = stats.Prop(R, "quiet-line", genQuiet, checkStream)
+
+func TestQuietLine(t *testing.T) { rapid.Check(t, propQuiet) }
 
 // Several handlers, each with its own channels and stream, in separate goroutines at the same time.
 func genStreamPar(t *rapid.T) StreamCase {
